@@ -242,7 +242,12 @@ def theorems_in(path):
     file (simple namespace tracking)."""
     out = []
     ns = []
-    for i, line in enumerate(open(path).read().split('\n'), 1):
+    txt = open(path).read()
+    # blank out block comments (keeping line numbers) and line comments
+    txt = re.sub(r'/-.*?-/', lambda m: '\n' * m.group(0).count('\n'), txt,
+                 flags=re.S)
+    txt = re.sub(r'--.*', '', txt)
+    for i, line in enumerate(txt.split('\n'), 1):
         m = re.match(r'^namespace\s+(\S+)', line)
         if m:
             ns.append(m.group(1))
